@@ -101,6 +101,7 @@ def check(spec):
             empty_part=case.has_empty,
             known_div=case.known_div,
             other=envp.used_other,
+            obj_col=any(c["kind"] == "obj" for c in spec["frame"]["columns"]),
             **flags(ops, case),
         )
         loose = False
